@@ -15,7 +15,7 @@ from numba_scfg.core.datastructures.basic_block import (
 
 
 def dump(scfg, ordered=True, depth=0):
-    if depth > 200:
+    if depth > 2000:  # a guard against cyclic hierarchies only; 500-block combs nest 250 deep
         raise RecursionError("hierarchy too deep")
     items = list(scfg.graph.items())
     if not ordered:
